@@ -206,6 +206,21 @@ fn foreign_use<R: rand::Rng>(rng: &mut R, name: &str, log: &mut Vec<String>) {
             }
             v
         }
+        // a group written out over a supercell: hundreds of operations
+        3 if rng.gen_range(0, 3) == 0 => {
+            let n = [8usize, 9, 6][rng.gen_range(0, 3)];
+            let mut v = vec![];
+            for (sx, sy) in [("x", "y"), ("-x", "-y"), ("-x", "y"), ("x", "-y")].iter() {
+                for i in 0..n {
+                    for j in 0..n {
+                        let tx = if i == 0 { String::new() } else { format!("+{}/{}", i, n) };
+                        let ty = if j == 0 { String::new() } else { format!("+{}/{}", j, n) };
+                        v.push(format!("{}{},{}{}", sx, tx, sy, ty));
+                    }
+                }
+            }
+            v
+        }
         // any multiplicity
         _ => {
             let m = [1usize, 2, 3, 4, 8][rng.gen_range(0, 5)];
